@@ -54,7 +54,7 @@ CONSTANTS
   ModernUnsub,  \* environment: modern sessions may unsubscribe a URI
   Stepwise,          \* environment acts only at SDK quiescence (scenario discipline)
   Gates,        \* environment may hold client-side gates ...
-  GateNames,    \* ... these: subset of {"inv", "usr", "put"}
+  GateNames,    \* ... these: subset of {"inv", "usr", "put", "unsub"}
   ClientFirst   \* reduction: server and environment wait until the clients have drained their channels
 
 VARIABLES
@@ -68,20 +68,21 @@ VARIABLES
   lsub,     \* notif -> modern sessions in the server's *ChangeSubscriptions map
   rsub,     \* uri -> sessions in the server's resourceSubscriptions[uri]
   usub,     \* session -> URIs it is subscribed to, as the client sees it (the truth for entitlement)
+  pun,      \* <<session, uri>>: listen streams the client has cancelled whose server-side clean-up has not run yet
   chan,     \* session -> FIFO of messages server -> client
   nq,       \* session -> notifications read, waiting for the in-order dispatcher
   hnd,      \* session -> notification being handled: [stage, msg]
   cache,    \* session -> item -> cached version, -1 = empty
   call,     \* session -> slot -> list/read call
   handled,  \* session -> item -> newest version announced by a notification its user handler has seen
-  gates,    \* held gates: <<"inv"|"usr"|"put", session>>
+  gates,    \* held gates: <<"inv"|"usr"|"put"|"unsub", session>>
   race,     \* kind whose change is racing the timers of the current instant ("" = none)
   budget,   \* [chg, upd] counters
   ent,      \* ghost: session -> notif -> entitled at the last change of notif and ever since
   got,      \* ghost: session -> notif -> its user handler saw a notification sent after the last change
   bad       \* ghost: names of the immediate clauses that a send violated
 
-vars == <<now, ver, ref, refDue, orph, cbs, sess, lsub, rsub, usub, chan, nq, hnd, cache, call, handled,
+vars == <<now, ver, ref, refDue, orph, cbs, sess, lsub, rsub, usub, pun, chan, nq, hnd, cache, call, handled,
           gates, race, budget, ent, got, bad>>
 
 Modern == Sessions \ Legacy
@@ -114,6 +115,7 @@ Init ==
   /\ lsub = [n \in Notifs |-> {s \in InitOn \cap Modern : n \in Want[s] /\ CapOn(n)}]
   /\ rsub = [u \in Uris |-> InitSub]
   /\ usub = [s \in Sessions |-> IF s \in InitSub THEN Uris ELSE {}]
+  /\ pun = {}
   /\ chan = [s \in Sessions |-> <<>>]
   /\ nq = [s \in Sessions |-> <<>>]
   /\ hnd = [s \in Sessions |-> None]
@@ -136,6 +138,7 @@ Held(g, s) == <<g, s>> \in gates
 
 SdkEnabled ==
   \/ \E n \in Notifs : TimerDue(n) \/ cbs[n] > 0
+  \/ \E x \in pun : ~Held("unsub", x[1])
   \/ \E s \in Sessions :
         \/ chan[s] # <<>>
         \/ (nq[s] # <<>> /\ hnd[s].stage = "none" /\ ~Held("inv", s))
@@ -168,21 +171,21 @@ DoChange(k) ==
 Change(k) ==
   /\ EnvOK /\ budget.chg < MaxChanges
   /\ DoChange(k)
-  /\ UNCHANGED <<now, orph, cbs, sess, lsub, rsub, usub, chan, nq, hnd, cache, call, handled, gates, race, bad>>
+  /\ UNCHANGED <<now, orph, cbs, sess, lsub, rsub, usub, pun, chan, nq, hnd, cache, call, handled, gates, race, bad>>
 
 \* the change made at an instant at which a timer is due: it interleaves with TimerFire / CallbackRun
 RaceChange ==
   /\ race # "" /\ SrvOK
   /\ DoChange(race)
   /\ race' = ""
-  /\ UNCHANGED <<now, orph, cbs, sess, lsub, rsub, usub, chan, nq, hnd, cache, call, handled, gates, bad>>
+  /\ UNCHANGED <<now, orph, cbs, sess, lsub, rsub, usub, pun, chan, nq, hnd, cache, call, handled, gates, bad>>
 
 TimerFire(n) ==
   /\ SrvOK /\ ref[n] = "armed" /\ refDue[n] <= now
   /\ ref' = [ref EXCEPT ![n] = "idle"]
   /\ refDue' = [refDue EXCEPT ![n] = 0]
   /\ cbs' = [cbs EXCEPT ![n] = @ + 1]
-  /\ UNCHANGED <<now, ver, orph, sess, lsub, rsub, usub, chan, nq, hnd, cache, call, handled, gates, race, budget, ent, got, bad>>
+  /\ UNCHANGED <<now, ver, orph, sess, lsub, rsub, usub, pun, chan, nq, hnd, cache, call, handled, gates, race, budget, ent, got, bad>>
 
 OrphFire(n) ==
   /\ SrvOK
@@ -190,7 +193,7 @@ OrphFire(n) ==
         /\ orph[n][d] > 0 /\ d <= now
         /\ orph' = [orph EXCEPT ![n][d] = @ - 1]
   /\ cbs' = [cbs EXCEPT ![n] = @ + 1]
-  /\ UNCHANGED <<now, ver, ref, refDue, sess, lsub, rsub, usub, chan, nq, hnd, cache, call, handled, gates, race, budget, ent, got, bad>>
+  /\ UNCHANGED <<now, ver, ref, refDue, sess, lsub, rsub, usub, pun, chan, nq, hnd, cache, call, handled, gates, race, budget, ent, got, bad>>
 
 NMsg(t) == [t |-> "n", topic |-> t, snap |-> ver, slot |-> 0, val |-> 0]
 
@@ -204,7 +207,7 @@ CallbackRun(n) ==
   /\ chan' = [s \in Sessions |-> IF s \in R THEN Append(chan[s], NMsg(n)) ELSE chan[s]]
   /\ bad' = bad \cup (IF \E s \in R : ~EntLC(s, n) THEN {"OnlyEntitled"} ELSE {})
                 \cup (IF ~CapOn(n) /\ R # {} THEN {"NoneWhenDisabled"} ELSE {})
-  /\ UNCHANGED <<now, ver, sess, lsub, rsub, usub, nq, hnd, cache, call, handled, gates, race, budget, ent, got>>
+  /\ UNCHANGED <<now, ver, sess, lsub, rsub, usub, pun, nq, hnd, cache, call, handled, gates, race, budget, ent, got>>
 
 \* server: ResourceUpdated(u) — the content changed and the server author says so
 Updated(u) ==
@@ -214,8 +217,10 @@ Updated(u) ==
   /\ ver' = [ver EXCEPT ![u] = @ + 1]
   /\ budget' = [budget EXCEPT !.upd = @ + 1]
   /\ chan' = [s \in Sessions |-> IF s \in R THEN Append(chan[s], m) ELSE chan[s]]
-  /\ bad' = bad \cup (IF R # {s \in Sessions : EntUp(s, u)} THEN {"UpdatedExactlySubscribers"} ELSE {})
-  /\ UNCHANGED <<now, ref, refDue, orph, cbs, sess, lsub, rsub, usub, nq, hnd, cache, call, handled, gates, race, ent, got>>
+  \* exactly the subscribed sessions; a session whose unsubscribe the server is still processing may get it
+  /\ bad' = bad \cup (IF {s \in Sessions : EntUp(s, u)} \subseteq R /\ R \subseteq {s \in Sessions : EntUp(s, u) \/ <<s, u>> \in pun}
+                        THEN {} ELSE {"UpdatedExactlySubscribers"})
+  /\ UNCHANGED <<now, ref, refDue, orph, cbs, sess, lsub, rsub, usub, pun, nq, hnd, cache, call, handled, gates, race, ent, got>>
 
 \* ---------------------------------------------------------------------------
 \* sessions
@@ -227,7 +232,7 @@ Connect(s) ==
   /\ sess' = [sess EXCEPT ![s] = "on"]
   /\ lsub' = IF s \in Modern THEN [n \in Notifs |-> IF n \in Want[s] /\ CapOn(n) THEN lsub[n] \cup {s} ELSE lsub[n]]
              ELSE lsub
-  /\ UNCHANGED <<now, ver, ref, refDue, orph, cbs, rsub, usub, chan, nq, hnd, cache, call, handled, gates, race, budget, ent, got, bad>>
+  /\ UNCHANGED <<now, ver, ref, refDue, orph, cbs, rsub, usub, pun, chan, nq, hnd, cache, call, handled, gates, race, budget, ent, got, bad>>
 
 \* ClientSession.Close, the server notices and runs disconnect (and the listen handlers' clean-up)
 Close(s) ==
@@ -237,6 +242,7 @@ Close(s) ==
   /\ lsub' = [n \in Notifs |-> lsub[n] \ {s}]
   /\ rsub' = [u \in Uris |-> rsub[u] \ {s}]
   /\ usub' = [usub EXCEPT ![s] = {}]
+  /\ pun' = {x \in pun : x[1] # s}
   /\ chan' = [chan EXCEPT ![s] = <<>>]
   /\ nq' = [nq EXCEPT ![s] = <<>>]
   /\ hnd' = [hnd EXCEPT ![s] = None]
@@ -251,18 +257,30 @@ Subscribe(s, u) ==
   /\ EnvOK /\ sess[s] = "on" /\ u \notin usub[s]
   /\ usub' = [usub EXCEPT ![s] = @ \cup {u}]
   /\ rsub' = [rsub EXCEPT ![u] = @ \cup {s}]
-  /\ UNCHANGED <<now, ver, ref, refDue, orph, cbs, sess, lsub, chan, nq, hnd, cache, call, handled, gates, race, budget, ent, got, bad>>
+  /\ UNCHANGED <<now, ver, ref, refDue, orph, cbs, sess, lsub, pun, chan, nq, hnd, cache, call, handled, gates, race, budget, ent, got, bad>>
 
-\* resources/unsubscribe (legacy) or cancellation of the URI's listen stream (modern).  As coded, the
-\* listen handler's deferred clean-up deletes the session from ALL THREE *ChangeSubscriptions maps,
-\* whichever listen stream registered it there (server.go 1220-1226).
+\* resources/unsubscribe (legacy): the server's handler removes the entry.
+\* Cancellation of the URI's listen stream (modern): ClientSession.Unsubscribe returns at once; the server
+\* processes the cancellation asynchronously (FinishUnsub) and its UnsubscribeHandler (user code) may be slow:
+\* gate "unsub".
 Unsubscribe(s, u) ==
   /\ EnvOK /\ sess[s] = "on" /\ u \in usub[s]
   /\ s \in Modern => ModernUnsub
   /\ usub' = [usub EXCEPT ![s] = @ \ {u}]
+  /\ IF s \in Modern
+       THEN pun' = pun \cup {<<s, u>>} /\ UNCHANGED rsub
+       ELSE rsub' = [rsub EXCEPT ![u] = @ \ {s}] /\ UNCHANGED pun
+  /\ UNCHANGED <<now, ver, ref, refDue, orph, cbs, sess, lsub, chan, nq, hnd, cache, call, handled, gates, race, budget, ent, got, bad>>
+
+\* the cancelled listen handler returns: its deferred clean-up deletes resourceSubscriptions[u][s] — whichever
+\* listen stream owns that entry by now — and, as coded, deletes the session from ALL THREE
+\* *ChangeSubscriptions maps, whichever listen stream registered it there (server.go 1220-1245)
+FinishUnsub(s, u) ==
+  /\ <<s, u>> \in pun /\ ~Held("unsub", s)
+  /\ pun' = pun \ {<<s, u>>}
   /\ rsub' = [rsub EXCEPT ![u] = @ \ {s}]
-  /\ lsub' = IF s \in Modern THEN [n \in Notifs |-> lsub[n] \ {s}] ELSE lsub
-  /\ UNCHANGED <<now, ver, ref, refDue, orph, cbs, sess, chan, nq, hnd, cache, call, handled, gates, race, budget, ent, got, bad>>
+  /\ lsub' = [n \in Notifs |-> lsub[n] \ {s}]
+  /\ UNCHANGED <<now, ver, ref, refDue, orph, cbs, sess, usub, chan, nq, hnd, cache, call, handled, gates, race, budget, ent, got, bad>>
 
 \* ---------------------------------------------------------------------------
 \* client: list / read calls and the result cache
@@ -274,13 +292,13 @@ ListStart(s, c, i) ==
                 IF s \in Modern /\ TTLPos /\ cache[s][i] >= 0
                   THEN [st |-> "done", item |-> i, val |-> cache[s][i], hs |-> handled[s][i], hit |-> TRUE]
                   ELSE [st |-> "req", item |-> i, val |-> -1, hs |-> handled[s][i], hit |-> FALSE]]
-  /\ UNCHANGED <<now, ver, ref, refDue, orph, cbs, sess, lsub, rsub, usub, chan, nq, hnd, cache, handled, gates, race, budget, ent, got, bad>>
+  /\ UNCHANGED <<now, ver, ref, refDue, orph, cbs, sess, lsub, rsub, usub, pun, chan, nq, hnd, cache, handled, gates, race, budget, ent, got, bad>>
 
 ServeList(s, c) ==
   /\ call[s][c].st = "req"
   /\ call' = [call EXCEPT ![s][c].st = "sent"]
   /\ chan' = [chan EXCEPT ![s] = Append(@, [t |-> "r", topic |-> "", snap |-> ver, slot |-> c, val |-> ver[call[s][c].item]])]
-  /\ UNCHANGED <<now, ver, ref, refDue, orph, cbs, sess, lsub, rsub, usub, nq, hnd, cache, handled, gates, race, budget, ent, got, bad>>
+  /\ UNCHANGED <<now, ver, ref, refDue, orph, cbs, sess, lsub, rsub, usub, pun, nq, hnd, cache, handled, gates, race, budget, ent, got, bad>>
 
 \* the client's reader takes the next message off the wire: a notification is queued for the in-order
 \* dispatcher, a response is handed to its caller (ResponseArrives)
@@ -293,13 +311,13 @@ Read(s) ==
                  /\ UNCHANGED call
             ELSE /\ call' = [call EXCEPT ![s][m.slot] = [@ EXCEPT !.st = "arrived", !.val = m.val]]
                  /\ UNCHANGED nq
-  /\ UNCHANGED <<now, ver, ref, refDue, orph, cbs, sess, lsub, rsub, usub, hnd, cache, handled, gates, race, budget, ent, got, bad>>
+  /\ UNCHANGED <<now, ver, ref, refDue, orph, cbs, sess, lsub, rsub, usub, pun, hnd, cache, handled, gates, race, budget, ent, got, bad>>
 
 CachePut(s, c) ==
   /\ call[s][c].st = "arrived" /\ ~Held("put", s)
   /\ call' = [call EXCEPT ![s][c].st = "done"]
   /\ cache' = IF s \in Modern THEN [cache EXCEPT ![s][call[s][c].item] = call[s][c].val] ELSE cache
-  /\ UNCHANGED <<now, ver, ref, refDue, orph, cbs, sess, lsub, rsub, usub, chan, nq, hnd, handled, gates, race, budget, ent, got, bad>>
+  /\ UNCHANGED <<now, ver, ref, refDue, orph, cbs, sess, lsub, rsub, usub, pun, chan, nq, hnd, handled, gates, race, budget, ent, got, bad>>
 
 \* the in-order dispatcher takes the next notification and runs the SDK's handler: first the cache
 \* entries the notification is about are dropped ...
@@ -308,7 +326,7 @@ Invalidate(s) ==
   /\ hnd' = [hnd EXCEPT ![s] = [stage |-> "inval", msg |-> Head(nq[s])]]
   /\ nq' = [nq EXCEPT ![s] = Tail(@)]
   /\ cache' = [cache EXCEPT ![s] = [i \in Items |-> IF i \in ItemsOf(Head(nq[s]).topic) THEN -1 ELSE @[i]]]
-  /\ UNCHANGED <<now, ver, ref, refDue, orph, cbs, sess, lsub, rsub, usub, chan, call, handled, gates, race, budget, ent, got, bad>>
+  /\ UNCHANGED <<now, ver, ref, refDue, orph, cbs, sess, lsub, rsub, usub, pun, chan, call, handled, gates, race, budget, ent, got, bad>>
 
 \* ... then the user's handler runs
 UserHandler(s) ==
@@ -319,7 +337,7 @@ UserHandler(s) ==
   /\ handled' = [handled EXCEPT ![s] = [i \in Items |-> IF i \in ItemsOf(t) THEN Max(@[i], m.snap[i]) ELSE @[i]]]
   /\ got' = IF t \in Notifs /\ \A k \in KindsOf(t) : m.snap[k] = ver[k]
               THEN [got EXCEPT ![s][t] = TRUE] ELSE got
-  /\ UNCHANGED <<now, ver, ref, refDue, orph, cbs, sess, lsub, rsub, usub, chan, nq, cache, call, gates, race, budget, ent, bad>>
+  /\ UNCHANGED <<now, ver, ref, refDue, orph, cbs, sess, lsub, rsub, usub, pun, chan, nq, cache, call, gates, race, budget, ent, bad>>
 
 \* ---------------------------------------------------------------------------
 \* environment: time and gates
@@ -328,7 +346,7 @@ Tick ==
   /\ EnvOK /\ now < MaxTime
   /\ \E n \in Notifs : TimerArmed(n)
   /\ now' = now + 1
-  /\ UNCHANGED <<ver, ref, refDue, orph, cbs, sess, lsub, rsub, usub, chan, nq, hnd, cache, call, handled, gates, race, budget, ent, got, bad>>
+  /\ UNCHANGED <<ver, ref, refDue, orph, cbs, sess, lsub, rsub, usub, pun, chan, nq, hnd, cache, call, handled, gates, race, budget, ent, got, bad>>
 
 \* advance to an instant at which a timer is due and change a feature at that very instant
 TickRace(k) ==
@@ -336,21 +354,23 @@ TickRace(k) ==
   /\ \E n \in Notifs : (ref[n] = "armed" /\ refDue[n] = now + 1) \/ orph[n][now + 1] > 0
   /\ now' = now + 1
   /\ race' = k
-  /\ UNCHANGED <<ver, ref, refDue, orph, cbs, sess, lsub, rsub, usub, chan, nq, hnd, cache, call, handled, gates, budget, ent, got, bad>>
+  /\ UNCHANGED <<ver, ref, refDue, orph, cbs, sess, lsub, rsub, usub, pun, chan, nq, hnd, cache, call, handled, gates, budget, ent, got, bad>>
 
 Hold(g, s) ==
   /\ Gates /\ EnvOK /\ sess[s] = "on" /\ <<g, s>> \notin gates
+  /\ g = "unsub" => s \in Modern
   /\ gates' = gates \cup {<<g, s>>}
-  /\ UNCHANGED <<now, ver, ref, refDue, orph, cbs, sess, lsub, rsub, usub, chan, nq, hnd, cache, call, handled, race, budget, ent, got, bad>>
+  /\ UNCHANGED <<now, ver, ref, refDue, orph, cbs, sess, lsub, rsub, usub, pun, chan, nq, hnd, cache, call, handled, race, budget, ent, got, bad>>
 
 Release(g, s) ==
   /\ EnvOK /\ <<g, s>> \in gates
   /\ gates' = gates \ {<<g, s>>}
-  /\ UNCHANGED <<now, ver, ref, refDue, orph, cbs, sess, lsub, rsub, usub, chan, nq, hnd, cache, call, handled, race, budget, ent, got, bad>>
+  /\ UNCHANGED <<now, ver, ref, refDue, orph, cbs, sess, lsub, rsub, usub, pun, chan, nq, hnd, cache, call, handled, race, budget, ent, got, bad>>
 
 SdkNext ==
   \/ \E n \in Notifs : TimerFire(n) \/ OrphFire(n) \/ CallbackRun(n)
   \/ RaceChange
+  \/ \E s \in Sessions, u \in Uris : FinishUnsub(s, u)
   \/ \E s \in Sessions : Read(s) \/ Invalidate(s) \/ UserHandler(s)
   \/ \E s \in Sessions, c \in Slots : ServeList(s, c) \/ CachePut(s, c)
 
@@ -370,7 +390,7 @@ Spec == Init /\ [][Next]_vars
 \* the property
 
 Quiescent ==
-  /\ race = "" /\ gates = {}
+  /\ race = "" /\ gates = {} /\ pun = {}
   /\ \A n \in Notifs : ~TimerArmed(n) /\ cbs[n] = 0
   /\ \A s \in Sessions : ~InFlight(s)
 
